@@ -1,6 +1,33 @@
 #!/bin/bash
-# usage: matrix.sh [seed names...]   every stored seeded change x every quick check (2 seeds in parallel, 8 procs each)
+# usage: matrix.sh [seed names...]
+# Every stored seeded change x (its own property's check + the checks of the properties
+# anchored in the files it touches).  2 seeds in parallel, 8 processes each.
+# PLAN_ONLY=1 prints the plan and exits.
 cd "$(dirname "$0")"
-seeds="$@"; [ -z "$seeds" ] && seeds=$(ls seeded)
-props="C01 C02 C03 C04 C05 C06 C07 C08 C09 C10 C11 C12 C13 C14 C15 C16 C17 C18 C19 C20"
-echo $seeds | tr ' ' '\n' | xargs -P 2 -I{} sh -c "VERIF_PROCS=8 ./evalseed.sh seeded/{}/patch.diff {} $props 2>&1 | grep 'seed=' | cut -c1-260"
+seeds="$@"
+[ -z "$seeds" ] && seeds=$(ls -d seeded/*/ | xargs -n1 basename)
+plan() {
+  s=$1
+  list="${s%?}"
+  files=$(grep '^+++ ' seeded/$s/patch.diff | sed 's#+++ b/##')
+  for f in $files; do
+    case $f in
+      cache.go) list="$list C01 C02 C03 C06 C07 C15 C05";;
+      controller.go) list="$list C03 C04 C05 C08 C12 C14";;
+      watcher.go|watch_session.go) list="$list C03 C04 C12 C14";;
+      lister.go|ticker.go) list="$list C03 C13 C12 C14";;
+      publisher.go|subscription.go) list="$list C05 C06 C08 C10 C11 C12 C16";;
+      subscription_filter.go) list="$list C06 C07 C08 C09 C10 C11 C12";;
+      monitor.go) list="$list C16 C09 C12 C10";;
+      filter/*) list="$list C17 C18 C19 C07 C09 C06";;
+      types/*) list="$list C19 C17 C20 C09";;
+      client/*) list="$list C20";;
+      join/*) list="$list C09 C12";;
+    esac
+  done
+  echo $list | tr ' ' '\n' | sort -u | tr '\n' ' '
+}
+mkdir -p .work
+for s in $seeds; do echo "$s $(plan $s)"; done > .work/matrix.plan
+if [ -n "$PLAN_ONLY" ]; then cat .work/matrix.plan; exit 0; fi
+cat .work/matrix.plan | xargs -P 2 -L 1 sh -c 'n=$0; VERIF_PROCS=8 ./evalseed.sh seeded/$n/patch.diff $n "$@" 2>&1 | grep "seed=" | cut -c1-260'
